@@ -23,7 +23,7 @@ def gen_case(seed, k, cap):
         ts.append("Copy")
     ts += rng.sample(["Debug", "PartialEq", "Hash", "Default"], rng.randint(0, 1))
     rng.shuffle(ts)
-    td = G.random_type(rng, ts, G.Opts(p_attr=0.9, max_fields=4, max_variants=4, p_partial=0.3))
+    td = G.random_type(rng, ts, G.Opts(p_attr=0.9, max_fields=4, max_variants=4, p_partial=0.3, p_repr=0.3))
     text = S.render(td, rng_for(seed, PROP, "spell", k), extras=False)
     vals = S.values(td, cap, rng)
     drive = ["        %sdrive_clone(\"c%d\", %d, &mk);" % (RT, k, len(vals))]
